@@ -107,85 +107,38 @@ func runCheck(prop, tier string, overlay map[string][]byte, quiet bool) (int, *C
 		fmt.Fprintf(os.Stderr, "gowp: no contracts for property %s\n", prop)
 		return 2, rep
 	}
-	var pkgs []string
+	// packages of modules that lnd's go.mod does not replace with the local directory (tlv, tor)
+	// are separate build universes: they are loaded and encoded in their own engine instance.
+	groups := map[string][]string{}
+	replaced := replacedModuleDirs()
 	for p := range pkgSet {
-		pkgs = append(pkgs, p)
-	}
-	for p := range eng.inlinePkgs {
-		pkgs = append(pkgs, p)
-	}
-	sort.Strings(pkgs)
-	if err := eng.load(pkgs); err != nil {
-		// a tree that does not compile is not a property violation
-		fmt.Fprintf(os.Stderr, "gowp: %v\n", err)
-		return 2, rep
-	}
-	if err := eng.resolveContracts(); err != nil {
-		fmt.Fprintf(os.Stderr, "gowp: %v\n", err)
-		return 2, rep
+		dir := eng.dirOfPkg(p)
+		mod := repoRoot
+		if dir != "" {
+			mod = moduleDirFor(dir)
+			if replaced[mod] {
+				mod = repoRoot
+			}
+		}
+		groups[mod] = append(groups[mod], p)
 	}
 	var obls []*Obligation
-	for _, cf := range eng.contractFiles {
-		lp := eng.pkgByPath[cf.PkgPath]
-		if lp == nil {
-			continue
+	first := true
+	for _, mod := range sortedKeys(groups) {
+		geng := eng
+		if !first {
+			geng = NewEngine()
+			geng.overlay = overlay
+			geng.tier = tier
+			if err := geng.discoverContracts(); err != nil {
+				fmt.Fprintf(os.Stderr, "gowp: %v\n", err)
+				return 2, rep
+			}
 		}
-		for _, fc := range cf.Funcs {
-			if !hasProp(fc.Props, prop) || fc.Extern {
-				continue
-			}
-			key, _ := eng.contractKey(cf, lp, fc)
-			if fc.Trusted {
-				rep.Assumptions["trusted contract (body not verified): "+shortKey(key)] = true
-				continue
-			}
-			fn := eng.findFunction(key)
-			if fn == nil || len(fn.Blocks) == 0 {
-				rep.Missing = append(rep.Missing, key)
-				continue
-			}
-			enc, err := eng.encodeFunction(lp, fn, fc)
-			if err != nil {
-				rep.EngineErrors = append(rep.EngineErrors, err.Error())
-				continue
-			}
-			rep.Functions = append(rep.Functions, shortFnName(fn))
-			if os.Getenv("GOWP_VERBOSE") != "" {
-				for a, why := range enc.escaped {
-					fmt.Printf("  escape in %s: %s (%s): %s\n", shortFnName(fn), a.Name(), a.Comment, why)
-				}
-			}
-			for a := range enc.assumps {
-				rep.Assumptions[a] = true
-			}
-			for k := range enc.assumpEffectFree {
-				rep.Assumptions["effect-free callee (A-log): "+shortKey(k)] = true
-			}
-			for _, u := range enc.unsupported {
-				rep.Assumptions["unsupported instruction over-approximated: "+u] = true
-			}
-			rep.AnchorMiss = append(rep.AnchorMiss, enc.anchorMissing...)
-			if len(enc.floatOpsUsed) > 0 {
-				rep.Assumptions["A-fp: float operations are uninterpreted functions with the axioms listed in DESIGN.md"] = true
-			}
-			obls = append(obls, enc.obls...)
-		}
-		for _, lm := range cf.Lemmas {
-			if !hasProp(lm.Props, prop) || lm.Axiom {
-				continue
-			}
-			var o *Obligation
-			var err error
-			if lm.BV {
-				o, err = eng.bvLemmaObligation(lp, lm)
-			} else {
-				o, err = eng.lemmaObligation(lp, lm)
-			}
-			if err != nil {
-				rep.EngineErrors = append(rep.EngineErrors, err.Error())
-				continue
-			}
-			obls = append(obls, o)
+		first = false
+		code := geng.encodeGroup(prop, groups[mod], mod == repoRoot, rep, &obls)
+		if code != 0 {
+			return code, rep
 		}
 	}
 	// discharge
@@ -503,4 +456,96 @@ func checkContractLock(eng *Engine) error {
 		return fmt.Errorf("CONTRACT-DRIFT: %s listed in contracts.lock is missing", rel)
 	}
 	return nil
+}
+
+// encodeGroup loads one build universe and generates the obligations of the property's contracts
+// that live in it.
+func (eng *Engine) encodeGroup(prop string, groupPkgs []string, withInline bool, rep *CheckReport, oblsOut *[]*Obligation) int {
+	inGroup := map[string]bool{}
+	for _, p := range groupPkgs {
+		inGroup[p] = true
+	}
+	var obls []*Obligation
+	var pkgs []string
+	pkgs = append(pkgs, groupPkgs...)
+	if withInline {
+		for p := range eng.inlinePkgs {
+			pkgs = append(pkgs, p)
+		}
+	}
+	sort.Strings(pkgs)
+	if err := eng.load(pkgs); err != nil {
+		// a tree that does not compile is not a property violation
+		fmt.Fprintf(os.Stderr, "gowp: %v\n", err)
+		return 2
+	}
+	if err := eng.resolveContracts(); err != nil {
+		fmt.Fprintf(os.Stderr, "gowp: %v\n", err)
+		return 2
+	}
+	for _, cf := range eng.contractFiles {
+		lp := eng.pkgByPath[cf.PkgPath]
+		if lp == nil || !inGroup[cf.PkgPath] {
+			continue
+		}
+		for _, fc := range cf.Funcs {
+			if !hasProp(fc.Props, prop) || fc.Extern {
+				continue
+			}
+			key, _ := eng.contractKey(cf, lp, fc)
+			if fc.Trusted {
+				rep.Assumptions["trusted contract (body not verified): "+shortKey(key)] = true
+				continue
+			}
+			fn := eng.findFunction(key)
+			if fn == nil || len(fn.Blocks) == 0 {
+				rep.Missing = append(rep.Missing, key)
+				continue
+			}
+			enc, err := eng.encodeFunction(lp, fn, fc)
+			if err != nil {
+				rep.EngineErrors = append(rep.EngineErrors, err.Error())
+				continue
+			}
+			rep.Functions = append(rep.Functions, shortFnName(fn))
+			if os.Getenv("GOWP_VERBOSE") != "" {
+				for a, why := range enc.escaped {
+					fmt.Printf("  escape in %s: %s (%s): %s\n", shortFnName(fn), a.Name(), a.Comment, why)
+				}
+			}
+			for a := range enc.assumps {
+				rep.Assumptions[a] = true
+			}
+			for k := range enc.assumpEffectFree {
+				rep.Assumptions["effect-free callee (A-log): "+shortKey(k)] = true
+			}
+			for _, u := range enc.unsupported {
+				rep.Assumptions["unsupported instruction over-approximated: "+u] = true
+			}
+			rep.AnchorMiss = append(rep.AnchorMiss, enc.anchorMissing...)
+			if len(enc.floatOpsUsed) > 0 {
+				rep.Assumptions["A-fp: float operations are uninterpreted functions with the axioms listed in DESIGN.md"] = true
+			}
+			obls = append(obls, enc.obls...)
+		}
+		for _, lm := range cf.Lemmas {
+			if !hasProp(lm.Props, prop) || lm.Axiom {
+				continue
+			}
+			var o *Obligation
+			var err error
+			if lm.BV {
+				o, err = eng.bvLemmaObligation(lp, lm)
+			} else {
+				o, err = eng.lemmaObligation(lp, lm)
+			}
+			if err != nil {
+				rep.EngineErrors = append(rep.EngineErrors, err.Error())
+				continue
+			}
+			obls = append(obls, o)
+		}
+	}
+	*oblsOut = append(*oblsOut, obls...)
+	return 0
 }
